@@ -30,3 +30,11 @@ add("C09", "model_checking",
     "Every accepted journal of up to N body directives over an alphabet with trailing-zero, negative, zero and 8-decimal amounts, accruals, @performance, multi-balance assertions, Unicode names and multi-line descriptions is printed by the real `print`; the printed text must pass `check`, printing it again must reproduce it byte for byte, and six `balance` flag sets (unvalued/valued, months, diff, no-close) must give byte-identical reports on original and printed journal.",
     "Trusted: in-process driver, overlay (canonical map order makes byte comparison meaningful). Journals longer than N are outside the bound.",
     "bounded exhaustive input enumeration with fixpoint and differential oracles", "DESIGN.md 4 C09")
+add("C07", "model_checking",
+    "The real parser is run on every string of up to n symbols over 24 byte classes (invalid UTF-8, CR/LF, multi-byte, every punctuation the grammar knows), every sequence of up to m tokens over 29 tokens incl. 100000-character tokens, and every byte prefix / single-field substitution of a corpus of valid files; it must never panic, errors must carry a range inside the input and render, and on success a reflective walk checks every range (inside text, inside parent, increasing, disjoint, Extract = slice) and that the gaps are only blank/comment lines.",
+    "Trusted: the reflective walker over directive structs (follows every field of type Range). Small-scope hypothesis for longer inputs.",
+    "bounded exhaustive input enumeration with structural invariants", "DESIGN.md 4 C07")
+add("C08", "model_checking",
+    "Every sequence of up to N directive shapes is rendered in every layout of a layout alphabet (separators, CRLF, trailing blanks, missing final newline, comment/heading/blank lines between directives, annotation order) and formatted by the real formatter; the result must parse to a tree with identical leaf texts, the concatenated inter-directive text must be byte-identical, and formatting again must change nothing; parseable C07 token strings are included, and the `format` command is run on real files to check that unparseable files stay untouched.",
+    "Trusted: reflective leaf-text extraction. Layouts outside the alphabet are not covered.",
+    "bounded exhaustive input enumeration with re-parse, gap-equality and idempotence oracles", "DESIGN.md 4 C08")
